@@ -1380,4 +1380,4 @@ mod tests {
 
 #[cfg(kani)]
 #[path = "/verif/units/kani/seglog_mod.rs"]
-mod verif_kani;
+pub(crate) mod verif_kani;
